@@ -316,7 +316,7 @@ def immutable_share_setup(sc, rng, si, shnums, size, nleases):
 
 SCENARIOS = ["upload-new", "upload-next-to-existing", "upload-while-other-in-progress",
              "imm-add-lease", "imm-renew", "mut-add-lease", "mut-renew", "mut-renew-extra-slot",
-             "mut-create", "mut-write-inplace", "mut-grow", "mut-truncate", "mut-delete",
+             "mut-create", "mut-write-inplace", "mut-grow", "mut-grow-extra-leases", "mut-truncate", "mut-delete",
              "mut-multi-share", "expire"]
 
 
@@ -424,13 +424,16 @@ def _make_scenario(sc, name, rng):
                  "tw": [(sh, [], [(0, H(rb(rng, p["size"])))], None) for sh in shnums]}
         for sh in shnums:
             sc.write_targets.add((H(si), sh))
-    elif name in ("mut-write-inplace", "mut-grow", "mut-truncate", "mut-delete", "mut-multi-share"):
+    elif name in ("mut-write-inplace", "mut-grow", "mut-grow-extra-leases", "mut-truncate", "mut-delete",
+                  "mut-multi-share"):
         si = si_with_prefix(rng, prefix)
         secs = [secret(rng), secret(rng), secret(rng)]
         size = rng.choice([100, 1000, 3000])
         nshares = 3 if name == "mut-multi-share" else rng.randint(1, 2)
         shnums = sorted(rng.sample(range(5), nshares))
         nleases = rng.randint(0, 10) if name != "mut-grow" else rng.choice([0, 3, 4, 5, 6, 8, 10])
+        if name == "mut-grow-extra-leases":
+            nleases = rng.choice([5, 6, 7, 8, 10])       # an extra-lease block exists and has to be relocated
         p.update(size=size, nleases=nleases, shnums=shnums)
         for sh in shnums:
             mutable_share_setup(sc, rng, si, sh, secs, size, 1 if nleases else 0)
@@ -455,6 +458,13 @@ def _make_scenario(sc, name, rng):
                 tw = [(tgt, [], [(size + rng.choice([1, 300]), H(rb(rng, 100)))], None)]
             else:
                 tw = [(tgt, [], [(size - 10, H(rb(rng, 20))), (size + 5000, H(rb(rng, 10)))], None)]
+        elif name == "mut-grow-extra-leases":
+            # container growth relative to the size of the extra-lease block (count + records): old and new block
+            # overlap / touch / are apart.  The write itself may add one more lease (lease_with_write = new).
+            block = 4 + 92 * (nleases - 4)
+            p["block"] = block
+            p["growth"] = g_ = rng.choice([1, block - 1, block, block + 1, 10 * block])
+            tw = [(tgt, [], [(size, H(rb(rng, g_)))], None)]
         elif name == "mut-truncate":
             tw = [(tgt, [], [], rng.choice([1, size // 2, size - 1]))]
             if rng.random() < .5:
@@ -601,7 +611,16 @@ def evaluate(workdir, sc, pre, fx):
             elif after["error"] is not None:
                 obs.append(("written-share-unreadable:" + after["error"].split(":")[0], key))
             elif after["lease_error"] is not None:
-                obs.append(("written-share-leases-unreadable:" + after["lease_error"].split(":")[0], key))
+                prev = fx.ops[-1] if fx.ops else None
+                where = after["lease_error"].split(":")[0]
+                if prev and prev[0] == "write" and prev[2][0] == 92 and fx.crash_op and fx.crash_op[0] == "write":
+                    # the header's extra-lease offset was the last thing written and more was to follow
+                    where = "extra-lease-offset-written-before-the-block"
+                obs.append(("written-share-leases-unreadable:" + where, key, after["lease_error"]))
+                try:
+                    ss2.add_lease(U(key[0]), b"\x01" * 32, b"\x02" * 32)
+                except Exception as e:
+                    obs.append(("lease-ops-on-storage-index-fail-after-crash:" + type(e).__name__, key))
             elif lost_leases(before, after):
                 obs.append(("written-share-lost-leases", key, len(before["leases"]), len(after["leases"])))
             continue
@@ -876,7 +895,8 @@ def run(ck):
                        "incoming-empty-after-restart", "strace-trace-equality", "real-kill-agreement")
     ck.require_reach("crash-in-lease-append", "crash-in-container-growth", "crash-in-rename-window",
                      "crash-in-expirer-cancel", "upload-discarded-and-repeated",
-                     "renewed-mutable-lease-beyond-slot-4")
+                     "renewed-mutable-lease-beyond-slot-4",
+                     "crash-next-to-extra-lease-offset-update-with-more-than-4-leases")
 
 
 def enumerate_scenario(ck, sc, per_scenario, windows, fidelity_jobs, rounds):
@@ -924,6 +944,9 @@ def enumerate_scenario(ck, sc, per_scenario, windows, fidelity_jobs, rounds):
         ck.mon("non-target-unchanged", info["untouched"])
         ck.mon("immutable-complete-or-absent")
         ck.mon("incoming-empty-after-restart")
+        if sc.name == "mut-grow-extra-leases" and n < N and n and ops[n][0] == "write" and ops[n - 1][0] == "write" \
+                and (ops[n][2][0] == 92 or ops[n - 1][2][0] == 92):
+            ck.hit("crash-next-to-extra-lease-offset-update-with-more-than-4-leases")
         if sc.lease_only:
             ck.mon("lease-op-data-unchanged")
             if n == N and sc.name.startswith("mut-renew") and sc.params.get("which", 0) >= 4 and N > 0:
@@ -959,7 +982,7 @@ def reach(ck, sc, ops, n):
     if prev and prev[0] == "write" and nxt[0] == "write" and prev[1] == nxt[1] and prev[2][1] == 72 \
             and nxt[2] == (8, 4):
         ck.hit("crash-in-lease-append")
-    if sc.name == "mut-grow" and prev and prev[0] == "write" and nxt[0] == "write" and nxt[2][0] == 92:
+    if sc.name.startswith("mut-grow") and prev and prev[0] == "write" and nxt[0] == "write" and nxt[2][0] == 92:
         ck.hit("crash-in-container-growth")
     if nxt[0] == "rename" or (prev and prev[0] == "rename"):
         ck.hit("crash-in-rename-window")
